@@ -43,6 +43,19 @@ func EqualVals(a []Value, b []Value) bool {
 
 func CompareVals(a []Value, b []Value) int {
 	for i, v := range a {
+		if i >= len(b) {
+			return 1
+		}
+		// a key given only in part has nil components, they sort first and equal only each other
+		if v == nil || b[i] == nil {
+			if v == nil && b[i] == nil {
+				continue
+			}
+			if v == nil {
+				return -1
+			}
+			return 1
+		}
 		c := v.(Comparable).Compare(b[i].(Comparable))
 		if c < 0 {
 			return c
